@@ -1210,6 +1210,9 @@ func (st *c04State) plain(name string, args []string) string {
 func c04Run(line string) string {
 	st := &c04State{}
 	body := line
+	if strings.HasPrefix(line, "H: ") {
+		return c04HRun(line[3:])
+	}
 	if strings.HasPrefix(line, "I: ") {
 		st.iface = true
 		body = line[3:]
